@@ -1645,6 +1645,30 @@ func TestVerifC02(t *testing.T) {
 		}
 		out.Emit(cs)
 	}
+	// tables that do not exist, left EMPTY (a misspelt stanza with nothing in it yet, `[[interfaces.prefixes]]`): go-toml's
+	// strict mode reports undecoded VALUES only, so these pass -- known finding empty_unknown_table
+	for k, kf := range []struct{ class, text string }{
+		{"empty_unknown_table", "[[interfaces]]\nname = \"eth0\"\n[[interfaces.prefixes]]\n"},
+		{"empty_unknown_table", "[[interfaces]]\nname = \"eth0\"\n[interfaces.bogus]\n"},
+		{"empty_unknown_table", "[[interfaces]]\nname = \"eth0\"\n[bogus]\n"},
+		{"empty_unknown_table", "[[interfaces]]\nname = \"eth0\"\n[debug]\naddress = \"localhost:9430\"\n[debug.bogus]\n"},
+		{"empty_unknown_table", "bogus = {}\n[[interfaces]]\nname = \"eth0\"\n"},
+	} {
+		id := fmt.Sprintf("c02-known-%s-%d", kf.class, k)
+		if !out.Wants(id) {
+			continue
+		}
+		_, err, pan := safeParse(kf.text)
+		cs := verifh.Case{ID: id, Input: map[string]any{"toml": kf.text}, Tags: []string{"stream:decode", "known:" + kf.class}, Class: kf.class}
+		switch {
+		case pan != "":
+			cs.Class = ""
+			cs.ImplViolation = "config.Parse panicked: " + pan
+		case err == nil:
+			cs.ImplViolation = "accepted: " + kf.class
+		}
+		out.Emit(cs)
+	}
 	emitText("c02-minimal", fmt.Sprintf(config.Minimal, "verif"), []string{"stream:corpus"})
 
 	// stream "bytes": malformed byte strings (mutated valid documents and raw noise); only
